@@ -56,10 +56,7 @@ func poolKeyDir(verifDir string, bits, idx int) *rsa.PrivateKey {
 			}
 		}
 	}
-	k, err := rsa.GenerateKey(rand.Reader, bits)
-	if err != nil {
-		panic(err)
-	}
+	k := genRSAKey(bits)
 	// several processes (shards, workers) may get here at once: the first link wins and everybody uses the winner
 	tmp := fmt.Sprintf("%s.%d.tmp", p, os.Getpid())
 	os.WriteFile(tmp, pem.EncodeToMemory(&pem.Block{Type: "RSA PRIVATE KEY", Bytes: x509.MarshalPKCS1PrivateKey(k)}), 0o600)
@@ -74,6 +71,46 @@ func poolKeyDir(verifDir string, bits, idx int) *rsa.PrivateKey {
 	}
 	keyCache[name] = k
 	return k
+}
+
+// genRSAKey makes an RSA key whose modulus has exactly `bits` bits, for any bit length: also one that
+// is not a multiple of 8 (or of 2), which some library versions refuse to generate themselves.
+func genRSAKey(bits int) *rsa.PrivateKey {
+	if k, err := rsa.GenerateKey(rand.Reader, bits); err == nil && k.N.BitLen() == bits {
+		return k
+	}
+	one, e := big.NewInt(1), big.NewInt(65537)
+	for {
+		p, err1 := rand.Prime(rand.Reader, (bits+1)/2)
+		q, err2 := rand.Prime(rand.Reader, bits/2)
+		if err1 != nil || err2 != nil {
+			panic(fmt.Sprint(err1, err2))
+		}
+		n := new(big.Int).Mul(p, q)
+		if p.Cmp(q) == 0 || n.BitLen() != bits {
+			continue
+		}
+		phi := new(big.Int).Mul(new(big.Int).Sub(p, one), new(big.Int).Sub(q, one))
+		d := new(big.Int).ModInverse(e, phi)
+		if d == nil {
+			continue
+		}
+		k := &rsa.PrivateKey{PublicKey: rsa.PublicKey{N: n, E: 65537}, D: d, Primes: []*big.Int{p, q}}
+		k.Precompute()
+		if k.Validate() != nil {
+			continue
+		}
+		return k
+	}
+}
+
+// oddModulusBits: RSA modulus lengths that are not a multiple of 8 bits (one bit below and one bit
+// above a byte boundary, ...): the signature is ceil(bits/8) octets long, floor(bits/8) is one less.
+func oddModulusBits(c *Ctx) []int {
+	if c.Thorough {
+		return []int{2047, 2049, 3001, 4095}
+	}
+	return []int{2047, 2049}
 }
 
 type certShape struct {
